@@ -4,6 +4,7 @@ import (
 	"bytes"
 	"context"
 	"fmt"
+	"io"
 	"strings"
 	"sync"
 	"testing"
@@ -23,6 +24,13 @@ import (
 // ---- C20: interceptors and stats handlers ------------------------------------
 
 type C20Case struct {
+	// LateCancel (unary, outcome ok): the caller's context is cancelled from inside a client stats handler when the reply's
+	// InPayload event is delivered, i.e. after the call has been decided; the call still succeeds and End must say so
+	LateCancel bool `json:"late_cancel,omitempty"`
+	// HErr: what a failing handler (outcome herr) returns: "" = status NotFound "nf", eof = io.EOF, wrapped-eof = an error wrapping io.EOF
+	HErr string `json:"herr,omitempty"`
+	// ErrKind: the error value the failing transport returns (kit.FaultErrKinds)
+	ErrKind string   `json:"err_kind,omitempty"`
 	Kind    int      `json:"kind"`
 	Outcome string   `json:"outcome"` // ok | herr | cancel | deadline | transport | openfail
 	Server  []string `json:"server"`  // transformation of each server interceptor, in registration order: req | reply | md | err | pass
@@ -37,7 +45,14 @@ type C20Case struct {
 
 func genC20(t *rapid.T) C20Case {
 	c := C20Case{Kind: rapid.SampledFrom(allKinds).Draw(t, "kind"), Ser: rapid.Bool().Draw(t, "ser")}
+	c.ErrKind = rapid.SampledFrom(kit.FaultErrKinds).Draw(t, "err_kind")
 	c.Outcome = rapid.SampledFrom([]string{"ok", "ok", "herr", "cancel", "deadline", "transport", "openfail"}).Draw(t, "outcome")
+	if c.Outcome == "ok" && c.Kind == kit.KindUnary {
+		c.LateCancel = rapid.Bool().Draw(t, "late_cancel")
+	}
+	if c.Outcome == "herr" {
+		c.HErr = rapid.SampledFrom([]string{"", "", "eof", "wrapped-eof"}).Draw(t, "herr")
+	}
 	if c.Kind == kit.KindUnary && c.Outcome == "openfail" {
 		c.Outcome = "herr"
 	}
@@ -69,6 +84,8 @@ type recStats struct {
 	endErr   map[int][]error
 	untagged []string
 	conn     []string
+	// onEvent, if set, runs after each RPC event has been recorded (outside the lock)
+	onEvent func(name string)
 }
 
 func newRecStats(idx int, client bool) *recStats {
@@ -95,14 +112,19 @@ func (r *recStats) HandleRPC(ctx context.Context, s stats.RPCStats) {
 	name := strings.TrimPrefix(fmt.Sprintf("%T", s), "*stats.")
 	t, ok := ctx.Value(tagKey{r.idx*2 + b2i(r.client)}).(int)
 	r.mu.Lock()
-	defer r.mu.Unlock()
 	if !ok {
 		r.untagged = append(r.untagged, name)
+		r.mu.Unlock()
 		return
 	}
 	r.events[t] = append(r.events[t], name)
 	if e, ok := s.(*stats.End); ok {
 		r.endErr[t] = append(r.endErr[t], e.Error)
+	}
+	f := r.onEvent
+	r.mu.Unlock()
+	if f != nil {
+		f(name)
 	}
 }
 
@@ -147,7 +169,18 @@ func (s sendTagStream) SendMsg(m any) error {
 	return s.ServerStream.SendMsg(m)
 }
 
+func (c C20Case) handlerErr() error {
+	switch c.HErr {
+	case "eof":
+		return io.EOF
+	case "wrapped-eof":
+		return fmt.Errorf("reading the backend's answer: %w", io.EOF)
+	}
+	return status.Error(codes.NotFound, "nf")
+}
+
 func execC20(t *testing.T, c C20Case) (v Verdict) {
+	defer kit.UseFaultKind(c.ErrKind)()
 	var mu sync.Mutex
 	var trace []string // enter/exit events of interceptors and handler, per RPC separated by markers
 	log := func(s string) {
@@ -282,7 +315,7 @@ func execC20(t *testing.T, c C20Case) (v Verdict) {
 			mu.Unlock()
 			switch c.Outcome {
 			case "herr":
-				return nil, status.Error(codes.NotFound, "nf")
+				return nil, c.handlerErr()
 			case "cancel", "deadline", "transport":
 				// a caller's cancellation of a unary call is not conveyed to the server
 				// (no reset for unary calls), so the harness releases the handler itself
@@ -312,7 +345,7 @@ func execC20(t *testing.T, c C20Case) (v Verdict) {
 			}
 			switch c.Outcome {
 			case "herr":
-				return status.Error(codes.NotFound, "nf")
+				return c.handlerErr()
 			case "cancel", "deadline", "transport":
 				if c.Unread {
 					_ = kit.SendBytes(s, []byte("never read"))
@@ -348,6 +381,15 @@ func execC20(t *testing.T, c C20Case) (v Verdict) {
 			ctx, cancel := context.WithCancel(context.Background())
 			if c.Outcome == "deadline" {
 				ctx, cancel = context.WithTimeout(context.Background(), 40*time.Millisecond)
+			}
+			if c.LateCancel && len(cst) > 0 {
+				cst[0].mu.Lock()
+				cst[0].onEvent = func(name string) {
+					if name == "InPayload" {
+						cancel()
+					}
+				}
+				cst[0].mu.Unlock()
 			}
 			if c.Outcome == "openfail" {
 				ctx = metadata.AppendToOutgoingContext(ctx, "failopen", "1")
@@ -535,7 +577,13 @@ func execC20(t *testing.T, c C20Case) (v Verdict) {
 				v.failf("rpc %d: caller got (%q, %v), the reverse-composed reply is %q", n, results[n].reply, results[n].err, wantReply)
 			}
 		}
-		if c.Outcome == "herr" {
+		if c.Outcome == "herr" && c.HErr != "" {
+			// an error that is or wraps io.EOF is still a failure of the handler: the caller must not see success
+			if results[n].err == nil {
+				v.failf("rpc %d: the handler failed with %v, the caller got success", n, c.handlerErr())
+			}
+		}
+		if c.Outcome == "herr" && c.HErr == "" {
 			wantMsg := "nf"
 			for i := len(c.Server) - 1; i >= 0; i-- {
 				if c.Server[i] == "err" {
@@ -637,6 +685,15 @@ func execC20(t *testing.T, c C20Case) (v Verdict) {
 		v.failf("Serve did not return at shutdown")
 	}
 	labels := []string{"kind=" + kit.KindNames[c.Kind], "outcome=" + c.Outcome, fmt.Sprintf("unread=%v", c.Unread), fmt.Sprintf("chain=%d", len(c.Server)), fmt.Sprintf("cchain=%d", len(c.Client)), fmt.Sprintf("single=%v", c.Single)}
+	if c.LateCancel {
+		labels = append(labels, "late_cancel=true")
+	}
+	if c.Outcome == "herr" {
+		labels = append(labels, "handler_error="+map[string]string{"": "status", "eof": "eof", "wrapped-eof": "eof"}[c.HErr])
+	}
+	if c.Outcome == "transport" {
+		labels = append(labels, "transport_error="+c.ErrKind)
+	}
 	v.Info = kit.CaseInfo{Labels: labels, NonTrivial: len(c.Server) >= 3 || c.Outcome != "ok" || c.SStats >= 2 || c.CStats >= 2, Key: fmt.Sprintf("%+v", c), Sample: c}
 	if v.Fail != "" {
 		d := map[string]any{"traces": traces}
